@@ -15,6 +15,12 @@ CHECKS = {
          "(b) CrossHair: toXmlName/coerceElement/coerceAttribute/fromXmlName on all names up to length 3 (quick) / 4 (thorough) over a 12-character class alphabet: result accepted by expat, legal names unchanged, round trip, injectivity (thorough); coerceComment on all Unicode strings up to length 5/7 with symbolic flags; coercePubid up to length 3.",
     note="expat is the XML-name oracle (XML 1.0 4th ed.); alphabet-to-all-characters step rests on (a) and on toXmlName using characters only through the two regexes; non-BMP outside the claim. " + NOTE_COMMON,
     design="§3 C20"),
+ "C16": dict(
+    technique="bounded symbolic execution (CrossHair/z3): strict vs non-strict runs of the real parser on catalogue contexts + one token chosen by symbolic index over the source-derived name list; tokenizer error sites on C02 pre-states with a symbolic Unicode continuation; conforming skeletons with symbolic text",
+    text="(a) for each tree-construction context (every 3rd of 73 in quick, all in thorough; documents and fragments) and every start/end/attributed/self-closing tag over ~140 source-derived names plus 12 other tokens: the non-strict run's errors all have a code in E that formats with its variables and a position inside the input; the strict run raises ParseError and nothing else, exactly when errors were recorded, with the first error's message. "
+         "(b) every ParseError token the tokenizer emits from each C02 catalogue pre-state on any continuation of <= 2/3 Unicode characters has a code in E whose template variables are supplied. (c) 10 conforming skeletons (incl. foreign content with mixed-case names) x symbolic text record no error in strict mode. (d) concrete lemma: E's templates format; all literal error sites in the AST use known codes and supply the template's variables.",
+    note="Element names by symbolic index over a finite source-derived list (the parser compares names only with such constants); after the fork the run is concrete. Lemma (d) is not a solver result. " + NOTE_COMMON,
+    design="§3 C16"),
  "C02": dict(
     technique="bounded symbolic execution (CrossHair/z3) of the real tokenizer state methods from catalogue pre-states on a symbolic continuation of arbitrary Unicode characters, differentially against an independent transcription of the WHATWG tokenizer (R1)",
     text="For every state method of the live HTMLTokenizer class (catalogue rebuilt from /repo at check time: 119 pre-states over 7 configurations = 5 start states x last start tag x CDATA allowed/not) the real tokenizer is run from that pre-state on EVERY string of <= 2 (quick) / 3 (thorough) Unicode characters followed by end of input, "
